@@ -82,6 +82,18 @@ static void vec_case(aop_t op, uint64_t N, MODULE_TYPE mt, int native, uint64_t 
     default: p = rng_range(r, 0, 2 * (int64_t)N - 1);
   }
   const unsigned k = 1 + (unsigned)(rng_u64(r) % 62);
+  // normalisations: a third of the cases run on vectors that already consist of base-2^k digits, including the two
+  // values on the edge of the balanced interval (+2^(k-1) is not a digit: it must become -2^(k-1) with a carry)
+  if ((op == A_NORMALIZE || op == A_BIG_NORMALIZE) && (rng_u64(r) % 3) == 0) {
+    const int64_t half = (int64_t)1 << (k - 1);
+    for (uint64_t l = 0; l < limbs; l++)
+      for (uint64_t i = 0; i < N; i++) {
+        const uint64_t t = rng_u64(r);
+        zvec_limb(&X, l)[i] = (t & 15) == 0 ? half : ((t & 15) == 1 ? -half : ((t & 15) == 2 ? half - 1 : (k >= 2 ? rng_sbits(r, k - 1) : 0)));
+      }
+    for (uint64_t l = 0; l < xs; l++) memcpy(zvec_limb(&X2, l), zvec_limb(&X, l), N * 8);
+    cnt("normalize_on_digit_vectors", 1);
+  }
   gbuf_t gt;
   uint64_t tb = N * 8;
   if (op == A_NORMALIZE) tb = vec_znx_normalize_base2k_tmp_bytes(mod);
